@@ -213,3 +213,20 @@ prop("C11", "exploration",
      {"quick": 500, "thorough": 4000},
      ["'kernel not on chain' is tested before mining (a fork removing the kernel is exercised by C18's machinery, not here)"],
      required_hist=["exported-proof-verifies", "unmined-proof-rejected", "altered-proof-rejected", "refused:altered", "success-exact:Send", "success-exact:LateLock"])
+
+prop("C07", "exploration",
+     "sequences of foreign calls (direct Foreign functions and JSON-RPC bodies through ForeignAPIHandlerV2::post) against a victim wallet holding confirmed outputs, "
+     "a locked pending send awaiting its reply, an issued invoice and an unconfirmed coinbase candidate, two accounts: honest receives (default / other account) "
+     "and their second delivery, hostile receives from the structural slate generator mixed with the victim's own slate ids, output commitments and public "
+     "participant data, build_coinbase with arbitrary fees/heights and key ids (none, existing outputs' paths, an unconfirmed candidate's path, random), "
+     "finalize_tx with generated slates, the victim's own S1 echoed back, the genuine reply with a damaged partial signature or without the recipient output, "
+     "a fabricated Invoice2 under the own invoice id, check_version. Oracle: diff of the complete LMDB key/value dump before/after each call (plus files and "
+     "spendable balance): only one new Unconfirmed output + one TxReceived entry (receive) or one coinbase candidate (build_coinbase, which may replace a "
+     "still-unconfirmed candidate) may appear; nothing existing may change or vanish; honest receive: exactly one output of the slate amount in the "
+     "destination account, reply with only the recipient's signed entry, second delivery refused without effect. distinct = (call kind, outcome, transport, "
+     "records added); non-trivial = all",
+     [{"name": "c07", "cmd": "c07", "shards": {"quick": 12, "thorough": 16}, "crash_is_violation": True}],
+     {"quick": 2500, "thorough": 30000},
+     ["id and derivation counters may advance on a refused call (they reserve nothing)",
+      "a validly counter-signed reply to an own slate is C02's domain and is not sent here"],
+     required_hist=["HonestReceive:ok", "RepeatReceive:refused", "HostileReceive:ok", "HostileReceive:refused", "BuildCoinbase:ok", "HostileFinalize:refused"])
